@@ -18,6 +18,27 @@ Theorem C13_trace_grammar : forall fuel rf ne k total reset dones s s' tr,
 Proof. exact learn_grammar. Qed.
 Print Assumptions C13_trace_grammar.
 
+(* fuel: the loops of the model carry fuel, so the theorems above also hold for runs cut by the fuel (flagged by d_exh).  With
+   rollouts of n >= 1 steps (on-policy, or off-policy with train_freq in steps), n_envs >= 1, rollout fuel >= n and loop fuel >=
+   total - num_timesteps the run is NOT cut: d_exh is untouched, a rollout that is not stopped has exactly n steps, and unless some
+   Step returned False learn() continues until num_timesteps >= total (the harness runs the model with fuel 400 and checks d_exh) *)
+Theorem C13_rollout_has_n_steps : forall ne n (onp : bool) fuel steps eps s s' cont tr,
+  0 <= steps <= n -> (Z.to_nat (n - steps) <= fuel)%nat ->
+  rollout fuel ne (if onp then OnPol n else OffStep n) steps eps s = (s', cont, tr) ->
+  d_exh s' = d_exh s /\
+  (cont = true -> d_stamp s' = d_stamp s + (n - steps) /\ d_nt s' = d_nt s + (n - steps) * ne).
+Proof. exact rollout_enough_fuel. Qed.
+Print Assumptions C13_rollout_has_n_steps.
+
+Theorem C13_learn_runs_until_total : forall fuel rf ne n (onp : bool) total reset dones s s' tr,
+  1 <= n -> 1 <= ne -> (Z.to_nat n <= rf)%nat ->
+  (Z.to_nat (snd (setup reset (d_nt s) total) - fst (setup reset (d_nt s) total)) <= fuel)%nat ->
+  learn fuel rf ne (if onp then OnPol n else OffStep n) total reset dones s = (s', tr) ->
+  d_exh s' = d_exh s /\
+  ((forall e, ~ In (e, false) tr) -> snd (setup reset (d_nt s) total) <= d_nt s').
+Proof. exact learn_enough_fuel. Qed.
+Print Assumptions C13_learn_runs_until_total.
+
 (* a step event returning False stops training before any further environment step *)
 Theorem C13_stop_halts : forall fuel rf ne k total reset dones s s' tr pre e post,
   learn fuel rf ne k total reset dones s = (s', tr) ->
@@ -289,3 +310,9 @@ Proof.
   vm_compute. split; [|reflexivity].
   exists [(TS 0, true); (RS, true); (UL 1 0, true); (Step 1, true); (UL 2 0, true)]. reflexivity.
 Qed.
+
+(* fuel: too little fuel is flagged, enough fuel reaches the target *)
+Example C13_ex_fuel :
+  d_exh (fst (learn 0 0 1 (OnPol 5) 100 true [] (init_dst Nop))) = true /\
+  (let r := learn 20 5 2 (OnPol 5) 25 true [] (init_dst Nop) in d_exh (fst r) = false /\ d_nt (fst r) = 30 /\ length (snd r) = 38%nat).
+Proof. vm_compute. repeat split; reflexivity. Qed.
